@@ -1452,6 +1452,17 @@ package main
 //@   ensures [C20] absent_stays_absent: in == nil ==> res == nil
 //@   ensures [C20] method_value_response_kept: in != nil ==> res != nil && res.Method == in.Method && res.Value == in.Value && res.Response == in.Response
 
+// (every subscription row of a {meta sub} reply goes out, each through pbTopicSubSerialize; stated for the row written in
+// each iteration)
+//@ func pbTopicSubSliceSerialize(subs []MsgTopicSub) (out []*pbx.TopicSub)
+//@   modifies inferred
+//@   ensures [C20] same_length: len(out) == len(subs)
+//@   loop 1
+//@     invariant [C20] so_far: 0 <= i && i <= len(subs) && len(out) == len(subs)
+//@     iterates [C20] row_kept: i == prev(i) + 1 && out[prev(i)] != nil && out[prev(i)].UserId == subs[prev(i)].User && out[prev(i)].Topic == subs[prev(i)].Topic
+//@   nopanic
+//@   safe
+
 // C20: a presence notice keeps its actor and its target apart on the wire.
 //@ func pbServPresSerialize(pres *MsgServerPres) (r *pbx.ServerMsg_Pres)
 //@   requires [C20] pres != nil
